@@ -70,7 +70,7 @@ impl OperationControl for GreedyFixed {
     }
 
     fn matches_iter<'a>(
-        &self,
+        &'a self,
         matcher: &'a ReMatcher,
         position: usize,
     ) -> Box<dyn Iterator<Item = usize> + 'a> {
@@ -100,11 +100,26 @@ impl OperationControl for GreedyFixed {
         if matches < self.min {
             return Box::new(std::iter::empty());
         }
-        Box::new(IntStepIterator::new(
+        let steps = IntStepIterator::new(
             p,
             -(self.len as i64),
             position.saturating_add(self.len.saturating_mul(self.min)),
-        ))
+        );
+        if self.contains_capturing_expressions() {
+            // when iterations are given back, the groups must hold what they
+            // captured in the last iteration that is kept
+            let len = self.len;
+            let operation = self.operation.as_ref();
+            let mut first = true;
+            Box::new(steps.inspect(move |end| {
+                if !first && *end >= position + len {
+                    operation.matches_iter(matcher, *end - len).next();
+                }
+                first = false;
+            }))
+        } else {
+            Box::new(steps)
+        }
     }
 
     fn children(&self) -> Vec<Operation> {
